@@ -16,6 +16,9 @@ OBLIGATIONS = (("Init => IndInv", ["--init=Init", "--inv=IndInv", "--length=0"])
 # an invariant of the (arbitrary) initial states
 C01_OBLIGATIONS = tuple((inv, ["--init=Init", f"--inv={inv}", "--length=0"]) for inv in
                         ("C01_IndexPointInverse", "C01_PointInOwnCell", "C01_CellsTileOnce", "C01_CentresIncrease", "C01_OutsideInNoCell"))
+C14_CLAIM = ("Apalache: a subregion inside the mesh region, on cell faces and a whole positive number of cells long stays so under translation, "
+             "scaling by any non-zero integer factor about any point and the half turn (spec/C14Core.tla, inductive invariant for "
+             "unbounded coordinates; %d of %d obligations, reported, not relied on)")
 C01_CLAIM = ("Apalache: on the 1-d integer lattice (spec/C01Core.tla) index -> centre -> index is the identity, every point of the region "
              "lies in the cell of its index and in no other, for unbounded corners, cell sizes and counts (%d of %d obligations, "
              "reported, not relied on)")
